@@ -81,7 +81,7 @@ def run(ctx):
     run_l1(ctx, ctx.n(160, 4000), l1_monitor, THEOREMS, need=("tick_TickIdleCheck",))
     PR.install()
     PR.reset()
-    fails, facts = run_l2(ctx, [S.sendnone, S.retrychain, S.retrywait, S.tworetries, S.fanout, S.waitfan, S.irflow], ctx.n(210, 4000), l2_monitor,
+    fails, facts = run_l2(ctx, [S.sendnone, S.retrychain, S.retrywait, S.tworetries, S.sameretries, S.fanout, S.waitfan, S.irflow], ctx.n(210, 4000), l2_monitor,
                           need=(("idle_announcements", 20), ("runs_with_retry_delay", 20)))
     known = [f for f in fails if f["why"].startswith(K_DELIVERED)]
     other = [f for f in fails if not f["why"].startswith(K_DELIVERED)]
